@@ -587,7 +587,7 @@ def run(rep):
             for mode, variant, total in plan_realisations(sc, idx, quick, rng):
                 items.append((sc, mode, variant, total, expected))
         rng.shuffle(items)
-        per = max(1, (len(items) + K - 1) // K)
+        per = min(3000, max(1, (len(items) + K - 1) // K))       # traces per TLC batch (one JVM each)
         shards = [(items[i:i + per], "emitted") for i in range(0, len(items), per)]
         results = pool.map(_replay_shard, shards)
     tally = {}
